@@ -96,7 +96,7 @@ pub fn profile(name: &str) -> Profile {
         "C09" => Profile { name: "C09", kinds: [2, 1, 2, 8, 0, 0, 0, 0, 0], err_returns: true, script_len: (1, 5), ..base },
         "C10" => Profile { name: "C10", kinds: [1, 1, 1, 0, 0, 8, 5, 0, 0], w_cause: 14, ..base },
         "C19" => Profile { name: "C19", kinds: [1, 0, 1, 0, 0, 0, 0, 0, 0], signals: 14, w_token: 4, max_sources: 3, ..base },
-        "C18" => Profile { name: "C18", kinds: [1, 0, 1, 1, 0, 0, 0, 0, 10], w_token: 9, w_cause: 10, ..base },
+        "C18" => Profile { name: "C18", kinds: [1, 0, 1, 1, 0, 0, 0, 3, 10], w_token: 9, w_cause: 10, ..base },
         "C17" => Profile { name: "C17", faults: true, kinds: [1, 0, 1, 2, 0, 8, 0, 0, 0], adapters: 12, w_cause: 10, max_sources: 5, natural_faults: true, err_returns: true, ..base },
         "C11" => Profile { name: "C11", kinds: [3, 2, 3, 2, 0, 1, 0, 0, 0], w_dispatch: 12, w_misc: 5, run_bias: 5, ..base },
         "C12" => Profile { name: "C12", scripted_faults: true, kinds: [2, 1, 8, 1, 2, 0, 0, 0, 0], w_dispatch: 10, w_advance: 5, w_cause: 3, ..base },
@@ -681,21 +681,77 @@ pub fn generate(profile_name: &str, seed: u64) -> Program {
         n *= 4;
     }
     let mut steps = Vec::new();
-    if (p.name == "C02" || p.name == "C01" || p.name == "C13" || p.name == "core") && g.rng.chance(1, 60) {
+    let many = matches!(p.name, "C02" | "C01" | "C13" | "C06" | "core") && g.rng.chance(1, if p.name == "C06" { 120 } else { 60 });
+    // most programs start with a few sources (before or after the burst, if there is one: the
+    // long-lived ones sit in the low or in the high slots)
+    let k = g.rng.range(1, 3);
+    let first = many && g.rng.chance(1, 2);
+    if first {
+        for _ in 0..k {
+            steps.push(g.insert_op(0));
+        }
+    }
+    if many {
         // many simultaneously ready sources (now and then more than the poller's event buffer
         // holds: 1024)
         let cnt = *g.rng.pick(&[24u32, 64, 200, 200, 1100]);
         let base = g.next_id;
         g.next_id += cnt;
-        for i in 0..cnt.min(6) {
+        // the program goes on using some of them (also after they are gone: stale tokens)
+        for i in [0, 1, 2, cnt / 2, cnt - 2, cnt - 1] {
             g.srcs.push((base + i, KindTag::Ping, false));
         }
-        steps.push(Op::ManyPings { base, n: cnt });
+        // the burst goes away again, in one go: from the top level, or from the callback of the
+        // first of them while the events of the others are still in the batch - followed by
+        // new insertions (slots of a list that was long a moment ago)
+        let mut first_script = vec![];
+        let mut after = vec![];
+        if cnt >= 64 && g.rng.chance(2, 3) {
+            let keep = *g.rng.pick(&[1u32, 1, 3]);
+            if g.rng.chance(1, 2) {
+                let mut ops = vec![Op::RemoveRange { base: base + 1, n: cnt - 1 }];
+                for _ in 0..g.rng.range(2, 8) {
+                    ops.push(g.insert_op(1));
+                }
+                first_script.push(CbEntry { ops, ret: Ret::Continue });
+                after.push(Op::Dispatch(Timeout::Zero));
+            } else {
+                if g.rng.chance(1, 2) {
+                    after.push(Op::Dispatch(Timeout::Zero));
+                }
+                after.push(Op::RemoveRange { base: base + keep, n: cnt - keep });
+                for _ in 0..g.rng.range(2, 8) {
+                    after.push(g.insert_op(0));
+                }
+            }
+        }
+        steps.push(Op::ManyPings { base, n: cnt, first_script });
+        steps.extend(after);
     }
-    // most programs start with a few sources
-    let k = g.rng.range(1, 3);
-    for _ in 0..k {
-        steps.push(g.insert_op(0));
+    if p.name == "C13" && g.rng.chance(1, 30) {
+        // a long idle queue with holes in it: idles cancelled before they ran, more idles
+        // inserted afterwards
+        let cnt = *g.rng.pick(&[31u32, 32, 33, 64, 65, 130]);
+        let base = g.next_id;
+        g.next_id += cnt;
+        for i in [0, 3, cnt / 2, cnt - 1] {
+            g.idles.push(base + i);
+        }
+        steps.push(Op::ManyIdles { base, n: cnt });
+        for _ in 0..g.rng.range(1, 3) {
+            steps.push(Op::CancelIdle(base + g.rng.below(cnt as u64) as u32));
+        }
+        for _ in 0..g.rng.range(1, 3) {
+            steps.push(g.idle_op(1));
+        }
+        if g.rng.chance(1, 2) {
+            steps.push(Op::Dispatch(Timeout::Zero));
+        }
+    }
+    if !first {
+        for _ in 0..k {
+            steps.push(g.insert_op(0));
+        }
     }
     while (steps.len() as u64) < n {
         steps.extend(g.top_op());
